@@ -356,7 +356,7 @@ func init() {
 		c02PauseOverHolding(c, u, &tkBudget{max: 20})
 		c02Alias(c, u, &tkBudget{max: 20})
 		c02Sweep(c, u, budget)
-		n, ops, prob, max := 5, 200, 1, 1000
+		n, ops, prob, max := 8, 250, 2, 1000
 		if !quick {
 			n, ops, prob, max = 40, 500, 2, 9000
 		}
